@@ -58,6 +58,14 @@ pub(crate) fn fill_queries(world: &mut World, snap: &mut Snapshot)
 
 //-------------------------------------------------------------------------------------------------------------------
 
+pub(crate) fn system_command_entities(world: &mut World) -> Vec<Entity>
+{
+    let mut storages = world.query_filtered::<Entity, With<SystemCommandStorage>>();
+    storages.iter(world).collect()
+}
+
+//-------------------------------------------------------------------------------------------------------------------
+
 pub(crate) fn count_system_event_data<T: Send + Sync + 'static>(world: &mut World) -> usize
 {
     let mut data = world.query::<&SystemEventData<T>>();
